@@ -16,7 +16,7 @@ package static
 //@ requires [options] forall i int :: 0 <= i && i < len(params) ==> params[i] != nil
 //@ ensures [err] result1 != nil ==> result0 == nil
 //@ ensures [ok] result1 == nil ==> result0 != nil
-//@ loop #1
+//@ loop #1 over range params
 //@ invariant [range] 0 <= _n && _n <= len(params)
 
 //@ func New
@@ -25,7 +25,7 @@ package static
 //@ ensures [err] result1 != nil ==> result0 == nil
 //@ ensures [ok] result1 == nil ==> result0 != nil && tableWf(result0.peers)
 //@ ensures [ids] result1 == nil ==> (forall id uint64 :: id in result0.peers ==> result0.peers[id].ID == id)
-//@ loop #1
+//@ loop #1 over range parameters.peers
 //@ invariant [maps] servicePeers != nil && fresh(servicePeers) && peerNames != nil && fresh(peerNames)
 //@ invariant [dom] forall id uint64 :: (id in servicePeers) <==> visited()[id]
 //@ invariant [entries] forall id uint64 :: id in servicePeers ==> servicePeers[id] != nil && fresh(servicePeers[id]) && allocated(servicePeers[id]) && servicePeers[id].ID == id && servicePeers[id].Name in peerNames
@@ -36,7 +36,7 @@ package static
 //@ requires s != nil && tableWf(s.peers)
 //@ ensures [copy-dom] result != nil && fresh(result) && (forall id uint64 :: (id in result) <==> (id in s.peers))
 //@ ensures [copy-val] forall id uint64 :: id in result ==> result[id] != nil && result[id].Name == s.peers[id].Name && result[id].ID == s.peers[id].ID && result[id].Port == s.peers[id].Port
-//@ loop #1
+//@ loop #1 over range s.peers
 //@ invariant [res] res != nil && fresh(res)
 //@ invariant [sub] forall id uint64 :: visited()[id] ==> id in s.peers
 //@ invariant [dom] forall id uint64 :: (id in res) <==> visited()[id]
@@ -52,7 +52,7 @@ package static
 //@ requires [some] threshold >= 1
 //@ ensures [len] result1 == nil ==> len(result0) == threshold
 //@ ensures [entries] result1 == nil ==> (forall i int :: 0 <= i && i < len(result0) ==> result0[i] != nil)
-//@ loop #1
+//@ loop #1 over range s.peers
 //@ invariant [res] len(res) == threshold && fresh(res) && suitable < threshold
 //@ invariant [filled] forall j int :: 0 <= j && j < suitable ==> res[j] != nil
 //@ invariant [sub] forall id uint64 :: visited()[id] ==> id in s.peers
